@@ -5,6 +5,9 @@ C06, operation CREATE: the default-filling loop of the translated `SQLObject._cr
 function `fillFrom` says (the completed keywords in `kw`, nothing else changed; or `TypeError` at the first column
 without default, without defaultSQL and without keyword); `fillFrom_range`: over `columnList` that is
 `missingOf` / `kwFullOf` of `Model/FailCreateX.lean` (the arguments the hand model `Fail.createProg` takes).
+`create_loopS`: the same loop for a `**kw` that also holds ForeignKey-by-object names — a column whose `foreignName` is
+a keyword (`fkGiven`) is passed over, like a column with a defaultSQL (`maskD` / `maskQ`); `create_loop` is the case
+without such names.
 -/
 namespace SqlObjVerif.PyCreate
 open SqlObjVerif.PyMain (PV R mapR ofOpt PDict dget dhas dset dupdate sortByKey ofVal toVal? pvIdx pyBool)
@@ -38,66 +41,118 @@ theorem not_mem_keys (cur : List (Nat × In)) (j : Nat) (h : hasKey cur j = fals
   rw [← PyPure.dhas_iff, dhas_kwPV, h] at hm
   cases hm
 
-theorem create_loop (ctx : Ctx) (call : CallT) (cs : List Nat) : ∀ (cur : List (Nat × In)) (st : St),
-    st.fr.dicts 0 = some ⟨kwPV cur, []⟩ → (∀ e ∈ cur, e.1 < st.xw.w.ncols) → (∀ j ∈ cs, j < st.xw.w.ncols) →
+/-- the defaults table as the loop sees it when the columns `skip` are given by object (`column.foreignName in kw`):
+    such a column is passed over like a column with a defaultSQL -/
+def maskD (skip : Nat → Bool) (dflt : Nat → Option In) : Nat → Option In := fun j => if skip j then Option.none else dflt j
+def maskQ (skip : Nat → Bool) (dsql : Nat → Bool) : Nat → Bool := fun j => skip j || dsql j
+
+/-- `column.foreignName in kw` for column `j` and the keywords `cur` -/
+def fkGiven (w : FW) (cur : List (Nat × In)) (j : Nat) : Bool :=
+  (colOf (clsOf w.sch w.c).cols j).fk.isSome && fkIn w j (kwPV cur)
+
+theorem fkIn_append_col (w : FW) (cur : List (Nat × In)) (j j' : Nat) (v : In) (hj : j < w.ncols) :
+    fkIn w j' (kwPV (cur ++ [(j, v)])) = fkIn w j' (kwPV cur) := by
+  have hb : Nat.blt j w.ncols = true := by simpa [Nat.blt_eq] using hj
+  simp [fkIn, kwPV, List.any_append, fkKeyFor, hb]
+
+theorem fkIn_cols (w : FW) (cur : List (Nat × In)) (j : Nat) (h : ∀ e ∈ cur, e.1 < w.ncols) : fkIn w j (kwPV cur) = false := by
+  simp only [fkIn, kwPV, List.any_map, List.any_eq_false, Function.comp]
+  intro e he
+  have hb : Nat.blt e.1 w.ncols = true := by simpa [Nat.blt_eq] using h e he
+  simp [fkKeyFor, hb]
+
+/-- the default-filling loop for ANY keyword dict (column names and by-object names): a column whose `foreignName`
+    is a keyword (`skip`) is passed over -/
+theorem create_loopS (ctx : Ctx) (call : CallT) (skip : Nat → Bool) (cs : List Nat) : ∀ (cur : List (Nat × In)) (st : St),
+    st.fr.dicts 0 = some ⟨kwPV cur, []⟩ → (∀ j ∈ cs, j < st.xw.w.ncols) → (∀ j ∈ cs, fkGiven st.xw.w cur j = skip j) →
     ∃ fr', forLoop (fun st' v => Block.exec ctx call (st'.setVar 1 v) create_for0) (cs.map fun j => .pv (.col j)) st =
-        loopEnd st.xw fr' (fillFrom ctx.dflt ctx.dsql cs cur) ∧ fr'.vars 0 = st.fr.vars 0 ∧
-      ∀ full, fillFrom ctx.dflt ctx.dsql cs cur = some full → fr'.dicts 0 = some ⟨kwPV full, []⟩ := by
+        loopEnd st.xw fr' (fillFrom (maskD skip ctx.dflt) (maskQ skip ctx.dsql) cs cur) ∧ fr'.vars 0 = st.fr.vars 0 ∧
+      ∀ full, fillFrom (maskD skip ctx.dflt) (maskQ skip ctx.dsql) cs cur = some full → fr'.dicts 0 = some ⟨kwPV full, []⟩ := by
   induction cs with
   | nil =>
     intro cur st hd _ _
     exact ⟨st.fr, by simp [forLoop, fillFrom, loopEnd], rfl, by simp [fillFrom, hd]⟩
   | cons j cs ih =>
-    intro cur st hd hcur hcs
+    intro cur st hd hcs hsk
     have hj : j < st.xw.w.ncols := hcs j (by simp)
-    have hall : (kwPV cur).all (fun e => Nat.blt e.1 st.xw.w.ncols) = true := by
-      simp only [List.all_eq_true, kwPV, List.mem_map]
-      rintro e ⟨a, ha, rfl⟩
-      simpa [Nat.blt_eq] using hcur a ha
+    have hsj := hsk j (by simp)
     simp only [List.map_cons, forLoop, fillFrom]
     cases hk : hasKey cur j
-    · -- the column was not given
-      cases hdf : ctx.dflt j with
-      | some v =>
-        have hbody : Block.exec ctx call (st.setVar 1 (.pv (.col j))) create_for0 =
-            .norm ((st.setVar 1 (.pv (.col j))).setVar 2 (.pv (ofVal v.val)) |>.setDict 0 ⟨kwPV (cur ++ [(j, v)]), []⟩) := by
+    · cases hs : skip j
+      · -- the column was not given, neither by name nor by object
+        rw [hs] at hsj
+        have hmd : maskD skip ctx.dflt j = ctx.dflt j := by simp [maskD, hs]
+        have hmq : maskQ skip ctx.dsql j = ctx.dsql j := by simp [maskQ, hs]
+        rw [hmd, hmq]
+        have hfkc : ∀ b, (colOf (clsOf st.xw.w.sch st.xw.w.c).cols j).fk.isSome = b → b = true → fkIn st.xw.w j (kwPV cur) = false := by
+          intro b hb hbt
+          subst hbt
+          simpa [fkGiven, hb] using hsj
+        cases hdf : ctx.dflt j with
+        | some v =>
+          have hbody : Block.exec ctx call (st.setVar 1 (.pv (.col j))) create_for0 =
+              .norm ((st.setVar 1 (.pv (.col j))).setVar 2 (.pv (ofVal v.val)) |>.setDict 0 ⟨kwPV (cur ++ [(j, v)]), []⟩) := by
+            unfold create_for0
+            cases hfk : (colOf (clsOf st.xw.w.sch st.xw.w.c).cols j).fk.isSome
+            · pcwith [hd, dhas_kwPV, hk, hdf, hfk, PyPure.dset_not_mem _ _ _ (not_mem_keys cur j hk), kwPV_append]; rfl
+            · have hin := hfkc _ hfk rfl
+              pcwith [hd, dhas_kwPV, hk, hdf, hfk, hin, PyPure.dset_not_mem _ _ _ (not_mem_keys cur j hk), kwPV_append]; rfl
+          rw [hbody]
+          simp only [Bool.false_eq_true, if_false]
+          obtain ⟨fr', h1, h2, h3⟩ := ih (cur ++ [(j, v)])
+            ((st.setVar 1 (.pv (.col j))).setVar 2 (.pv (ofVal v.val)) |>.setDict 0 ⟨kwPV (cur ++ [(j, v)]), []⟩)
+            (by simp [St.setDict, Frame.setDict])
+            (fun j' hj' => hcs j' (by simp [hj']))
+            (fun j' hj' => by
+              have := hsk j' (by simp [hj'])
+              rw [← this]
+              show fkGiven st.xw.w (cur ++ [(j, v)]) j' = fkGiven st.xw.w cur j'
+              simp only [fkGiven, fkIn_append_col _ _ _ _ _ hj])
+          exact ⟨fr', h1, by rw [h2]; simp [St.setDict, St.setVar, Frame.setDict, Frame.setVar], h3⟩
+        | none =>
+          cases hq : ctx.dsql j
+          · -- missing: TypeError
+            have hbody : Block.exec ctx call (st.setVar 1 (.pv (.col j))) create_for0 =
+                .exc ((st.setVar 1 (.pv (.col j))).setVar 2 .noDefault) .typeError := by
+              unfold create_for0
+              cases hfk : (colOf (clsOf st.xw.w.sch st.xw.w.c).cols j).fk.isSome
+              · pcwith [hd, dhas_kwPV, hk, hdf, hfk, hq]
+              · have hin := hfkc _ hfk rfl
+                pcwith [hd, dhas_kwPV, hk, hdf, hfk, hin, hq]
+            rw [hbody]
+            exact ⟨_, by simp [loopEnd, St.setVar]; rfl, by simp [Frame.setVar], by simp⟩
+          · -- defaultSQL: continue
+            have hbody : Block.exec ctx call (st.setVar 1 (.pv (.col j))) create_for0 =
+                .cont ((st.setVar 1 (.pv (.col j))).setVar 2 .noDefault) := by
+              unfold create_for0
+              cases hfk : (colOf (clsOf st.xw.w.sch st.xw.w.c).cols j).fk.isSome
+              · pcwith [hd, dhas_kwPV, hk, hdf, hfk, hq]
+              · have hin := hfkc _ hfk rfl
+                pcwith [hd, dhas_kwPV, hk, hdf, hfk, hin, hq]
+            rw [hbody]
+            simp only [Bool.false_eq_true, if_false, if_true]
+            obtain ⟨fr', h1, h2, h3⟩ := ih cur ((st.setVar 1 (.pv (.col j))).setVar 2 .noDefault)
+              (by simpa [St.setVar, Frame.setVar] using hd) (fun j' hj' => hcs j' (by simp [hj']))
+              (fun j' hj' => hsk j' (by simp [hj']))
+            exact ⟨fr', h1, by rw [h2]; simp [St.setVar, Frame.setVar], h3⟩
+      · -- the column is given by object: `column.foreignName in kw`
+        rw [hs] at hsj
+        have hmd : maskD skip ctx.dflt j = Option.none := by simp [maskD, hs]
+        have hmq : maskQ skip ctx.dsql j = true := by simp [maskQ, hs]
+        rw [hmd, hmq]
+        have hfk : (colOf (clsOf st.xw.w.sch st.xw.w.c).cols j).fk.isSome = true := by
+          simp only [fkGiven, Bool.and_eq_true] at hsj; exact hsj.1
+        have hin : fkIn st.xw.w j (kwPV cur) = true := by
+          simp only [fkGiven, Bool.and_eq_true] at hsj; exact hsj.2
+        have hbody : Block.exec ctx call (st.setVar 1 (.pv (.col j))) create_for0 = .norm (st.setVar 1 (.pv (.col j))) := by
           unfold create_for0
-          cases hfk : (colOf (clsOf st.xw.w.sch st.xw.w.c).cols j).fk.isSome <;>
-            pcwith [hd, dhas_kwPV, hk, hdf, hall, hfk, PyPure.dset_not_mem _ _ _ (not_mem_keys cur j hk), kwPV_append] <;> rfl
+          pcwith [hd, dhas_kwPV, hk, hfk, hin]
         rw [hbody]
-        simp only [Bool.false_eq_true, if_false]
-        obtain ⟨fr', h1, h2, h3⟩ := ih (cur ++ [(j, v)])
-          ((st.setVar 1 (.pv (.col j))).setVar 2 (.pv (ofVal v.val)) |>.setDict 0 ⟨kwPV (cur ++ [(j, v)]), []⟩)
-          (by simp [St.setDict, Frame.setDict])
-          (by
-            intro e he
-            simp only [List.mem_append, List.mem_singleton] at he
-            rcases he with he | rfl
-            · exact hcur e he
-            · exact hj)
-          (fun j' hj' => hcs j' (by simp [hj']))
-        exact ⟨fr', h1, by rw [h2]; simp [St.setDict, St.setVar, Frame.setDict, Frame.setVar], h3⟩
-      | none =>
-        cases hq : ctx.dsql j
-        · -- missing: TypeError
-          have hbody : Block.exec ctx call (st.setVar 1 (.pv (.col j))) create_for0 =
-              .exc ((st.setVar 1 (.pv (.col j))).setVar 2 .noDefault) .typeError := by
-            unfold create_for0
-            cases hfk : (colOf (clsOf st.xw.w.sch st.xw.w.c).cols j).fk.isSome <;>
-              pcwith [hd, dhas_kwPV, hk, hdf, hall, hfk, hq]
-          rw [hbody]
-          exact ⟨_, by simp [loopEnd, St.setVar]; rfl, by simp [Frame.setVar], by simp⟩
-        · -- defaultSQL: continue
-          have hbody : Block.exec ctx call (st.setVar 1 (.pv (.col j))) create_for0 =
-              .cont ((st.setVar 1 (.pv (.col j))).setVar 2 .noDefault) := by
-            unfold create_for0
-            cases hfk : (colOf (clsOf st.xw.w.sch st.xw.w.c).cols j).fk.isSome <;>
-              pcwith [hd, dhas_kwPV, hk, hdf, hall, hfk, hq]
-          rw [hbody]
-          simp only [Bool.false_eq_true, if_false, if_true]
-          obtain ⟨fr', h1, h2, h3⟩ := ih cur ((st.setVar 1 (.pv (.col j))).setVar 2 .noDefault)
-            (by simpa [St.setVar, Frame.setVar] using hd) hcur (fun j' hj' => hcs j' (by simp [hj']))
-          exact ⟨fr', h1, by rw [h2]; simp [St.setVar, Frame.setVar], h3⟩
+        simp only [Bool.false_eq_true, if_false, if_true]
+        obtain ⟨fr', h1, h2, h3⟩ := ih cur (st.setVar 1 (.pv (.col j)))
+          (by simpa [St.setVar, Frame.setVar] using hd) (fun j' hj' => hcs j' (by simp [hj']))
+          (fun j' hj' => hsk j' (by simp [hj']))
+        exact ⟨fr', h1, by rw [h2]; simp [St.setVar, Frame.setVar], h3⟩
     · -- the column was given
       have hbody : Block.exec ctx call (st.setVar 1 (.pv (.col j))) create_for0 = .norm (st.setVar 1 (.pv (.col j))) := by
         unfold create_for0
@@ -105,8 +160,23 @@ theorem create_loop (ctx : Ctx) (call : CallT) (cs : List Nat) : ∀ (cur : List
       rw [hbody]
       simp only [if_true]
       obtain ⟨fr', h1, h2, h3⟩ := ih cur (st.setVar 1 (.pv (.col j)))
-        (by simpa [St.setVar, Frame.setVar] using hd) hcur (fun j' hj' => hcs j' (by simp [hj']))
+        (by simpa [St.setVar, Frame.setVar] using hd) (fun j' hj' => hcs j' (by simp [hj']))
+        (fun j' hj' => hsk j' (by simp [hj']))
       exact ⟨fr', h1, by rw [h2]; simp [St.setVar, Frame.setVar], h3⟩
+
+theorem maskD_false (dflt : Nat → Option In) : maskD (fun _ => false) dflt = dflt := by funext j; simp [maskD]
+theorem maskQ_false (dsql : Nat → Bool) : maskQ (fun _ => false) dsql = dsql := by funext j; simp [maskQ]
+
+/-- all keywords are column names: nothing is passed over -/
+theorem create_loop (ctx : Ctx) (call : CallT) (cs : List Nat) (cur : List (Nat × In)) (st : St)
+    (hd : st.fr.dicts 0 = some ⟨kwPV cur, []⟩) (hcur : ∀ e ∈ cur, e.1 < st.xw.w.ncols) (hcs : ∀ j ∈ cs, j < st.xw.w.ncols) :
+    ∃ fr', forLoop (fun st' v => Block.exec ctx call (st'.setVar 1 v) create_for0) (cs.map fun j => .pv (.col j)) st =
+        loopEnd st.xw fr' (fillFrom ctx.dflt ctx.dsql cs cur) ∧ fr'.vars 0 = st.fr.vars 0 ∧
+      ∀ full, fillFrom ctx.dflt ctx.dsql cs cur = some full → fr'.dicts 0 = some ⟨kwPV full, []⟩ := by
+  have h := create_loopS ctx call (fun _ => false) cs cur st hd hcs
+    (fun j _ => by simp [fkGiven, fkIn_cols _ _ _ hcur])
+  rw [maskD_false, maskQ_false] at h
+  exact h
 
 theorem hasKey_append (a b : List (Nat × In)) (j : Nat) : hasKey (a ++ b) j = (hasKey a j || hasKey b j) := by
   simp [hasKey, List.any_append]
